@@ -1,5 +1,5 @@
 (** C07 — pinned statements (client packet ids, inflight window, collisions).  Only [Theorem .. exact ..]. *)
-From Rumqtt Require Import Client.Run4 Client.Inv4 Client.Wire4 Client.Findings4 Client.Loop Client.LoopProofs Client.Flow4 Client.State5 Client.Inv5.
+From Rumqtt Require Import Client.Run4 Client.Inv4 Client.Wire4 Client.Findings4 Client.Loop Client.LoopProofs Client.Flow4 Client.State5 Client.Inv5 Client.LoopInv.
 
 Theorem c07_inv : forall max manual h, 1 <= max -> max <= 65535 -> contract (init max manual) h = true ->
   exists s, run (init max manual) h = Some s /\ Inv s.
@@ -40,16 +40,20 @@ Theorem c07_loop_inv : forall max manual h, 1 <= max -> max <= 65535 -> Client.L
   exists l, Client.Loop.lrun (Client.Loop.linit max manual) h = Some l /\ Inv (Client.Loop.st l).
 Proof. exact Client.LoopProofs.lrun_inv_init. Qed.
 
-Theorem c07_take_channel_guard : forall l r rest,
-  Client.Loop.connected l = true -> events (Client.Loop.st l) = [] -> Client.Loop.pending l = [] -> Client.Loop.chan l = r :: rest ->
+Theorem c07_take_guard : forall l,
+  Client.Loop.connected l = true -> events (Client.Loop.st l) = [] -> (Client.Loop.pending l <> [] \/ Client.Loop.chan l <> []) ->
   (Client.Loop.take_enabled l = true <-> inflight (Client.Loop.st l) < max_inflight (Client.Loop.st l) /\ collision (Client.Loop.st l) = None).
-Proof. exact Client.LoopProofs.take_channel_guard. Qed.
+Proof. exact Client.LoopProofs.take_guard. Qed.
 
-Theorem c07_f7_loop_witness :
-  Client.LoopProofs.k7 (Client.Loop.linit 1 false) Client.LoopProofs.f7_loop_history = true /\
+Theorem c07_f7_loop_refuted_before_fix :
+  Client.LoopProofs.k7_orig (Client.Loop.linit 1 false) Client.LoopProofs.f7_loop_history = true /\
+  option_map (fun l => (Client.Flow4.held (Client.Loop.st l), Client.Loop.pending l, Client.Loop.chan l, Client.Loop.wire l))
+    (Client.Loop.lrun_orig (Client.Loop.linit 1 false) Client.LoopProofs.f7_loop_history)
+  = Some ([RPublish (mkPub Q1 1 1 1); RPublish (mkPub Q1 1 3 3)], [], [], [PPublish (mkPub Q1 1 1 1)])
+  /\ Client.LoopProofs.k7 (Client.Loop.linit 1 false) Client.LoopProofs.f7_loop_history = false /\
   option_map (fun l => (Client.Flow4.held (Client.Loop.st l), Client.Loop.pending l, Client.Loop.chan l, Client.Loop.wire l))
     (Client.Loop.lrun (Client.Loop.linit 1 false) Client.LoopProofs.f7_loop_history)
-  = Some ([RPublish (mkPub Q1 1 1 1); RPublish (mkPub Q1 1 3 3)], [], [], [PPublish (mkPub Q1 1 1 1)]).
+  = Some ([RPublish (mkPub Q1 1 1 1)], [Client.LoopProofs.pq1 2; Client.LoopProofs.pq1 3], [], [PPublish (mkPub Q1 1 1 1)]).
 Proof. exact Client.LoopProofs.f7_loop_witness. Qed.
 
 (* v5: the state invariant (conjuncts a, b, c, f, g; no panic) for rumqttc::v5::MqttState.
@@ -66,3 +70,8 @@ Proof. exact Client.Inv5.step5_inv. Qed.
 
 Theorem c07_window_v5 : forall s, Client.Inv5.Inv5 s -> Client.State5.s5_inflight s <= Client.State5.s5_max_limit s.
 Proof. exact Client.Inv5.inv5_bound. Qed.
+
+Theorem c07_loop_inv_all : forall max manual h, 1 <= max -> max <= 65535 -> forallb Client.LoopInv.wf_user h = true ->
+  Client.LoopProofs.k7 (Client.Loop.linit max manual) h = false /\
+  exists l, Client.Loop.lrun (Client.Loop.linit max manual) h = Some l /\ Inv (Client.Loop.st l).
+Proof. exact Client.LoopInv.lrun_inv_all. Qed.
